@@ -201,7 +201,7 @@ func (e *Engine) VerifyFunc(fc *FuncContract) *FuncResult {
 		fr.vals[p] = v
 		params = append(params, v)
 		ctx.assume(e.rangeFact(c, p.Type()))
-		e.noteRange(c, p.Type())
+		fr.noteRange(c, p.Type())
 		if i == 0 && fn.Signature.Recv() != nil && s == SRef {
 			ctx.assume(Not(Eq(c, e.nilRef())))
 		}
@@ -258,7 +258,7 @@ func (e *Engine) verifyLemma(l *FuncContract, res *FuncResult) *FuncResult {
 		c := Const("param!"+p.Name(), s)
 		params = append(params, &Val{T: c, Typ: p.Type()})
 		ctx.assume(e.rangeFact(c, p.Type()))
-		e.noteRange(c, p.Type())
+		fr.noteRange(c, p.Type())
 	}
 	for _, c := range l.Requires {
 		t, err := fr.evalClause(l, c, params, nil, nil, fr.st, nil)
